@@ -19,76 +19,85 @@ import (
 // ---- C20 ---------------------------------------------------------------------------------------------------
 
 type family struct {
-	Name string
-	Gen  func(n int) string
-	Op   string // parse | href | pathname | searchparams | getters | canon
+	Name   string
+	Gen    func(n int) string
+	Op     string // parse | href | pathname | searchparams | getters | canon
+	TScale int    // wall time is measured at TScale*n and 4*TScale*n (default 16; smaller for families known to be quadratic)
 }
 
 var families = []family{
-	{"long-opaque-path", func(n int) string { return "sc:" + strings.Repeat("a", n) }, "parse"},
-	{"long-scheme-specific-non-ascii", func(n int) string { return "sc:" + strings.Repeat("é", n) }, "parse"},
-	{"long-username", func(n int) string { return "http://" + strings.Repeat("u", n) + "@h/" }, "parse"},
-	{"long-password", func(n int) string { return "http://u:" + strings.Repeat("p", n) + "@h/" }, "parse"},
-	{"many-at", func(n int) string { return "http://" + strings.Repeat("@", n) + "h/" }, "parse"},
-	{"many-colon-in-credentials", func(n int) string { return "http://" + strings.Repeat(":", n) + "@h/" }, "parse"},
-	{"long-opaque-host", func(n int) string { return "sc://" + strings.Repeat("h", n) + "/" }, "parse"},
-	{"long-opaque-host-percent", func(n int) string { return "sc://" + strings.Repeat("%41", n/3) + "/" }, "parse"},
-	{"long-domain-host", func(n int) string { return "http://" + strings.Repeat("a.", n/2) + "com/" }, "parse"},
-	{"long-domain-host-escaped", func(n int) string { return "http://" + strings.Repeat("%61", n/3) + ".com/" }, "parse"},
-	{"many-path-segments", func(n int) string { return "http://h" + strings.Repeat("/a", n/2) }, "parse"},
-	{"many-slashes", func(n int) string { return "http://h" + strings.Repeat("/", n) }, "parse"},
-	{"many-backslashes", func(n int) string { return "http://h" + strings.Repeat("\\", n) }, "parse"},
-	{"many-dot-segments", func(n int) string { return "http://h" + strings.Repeat("/a/..", n/5) }, "parse"},
-	{"two-segments-then-dot-dot", func(n int) string { return "http://h" + strings.Repeat("/a/b/..", n/7) }, "parse"},
-	{"three-segments-then-two-dot-dot", func(n int) string { return "http://h" + strings.Repeat("/a/b/c/../..", n/12) }, "parse"},
-	{"two-segments-then-escaped-dot-dot", func(n int) string { return "sc://h" + strings.Repeat("/a/b/%2e%2E", n/11) }, "parse"},
-	{"two-segments-then-dot-dot-href", func(n int) string { return "http://h" + strings.Repeat("/a/b/..", n/7) }, "href"},
-	{"dot-and-empty-segments", func(n int) string { return "http://h" + strings.Repeat("/.//a", n/5) }, "parse"},
-	{"file-drive-and-dot-dot", func(n int) string { return "file:///C:" + strings.Repeat("/a/b/..", n/7) }, "parse"},
-	{"relative-two-segments-then-dot-dot", func(n int) string { return strings.Repeat("a/b/../", n/7) }, "resolve"},
+	{"long-opaque-path", func(n int) string { return "sc:" + strings.Repeat("a", n) }, "parse", 0},
+	{"long-scheme-specific-non-ascii", func(n int) string { return "sc:" + strings.Repeat("é", n) }, "parse", 0},
+	{"long-username", func(n int) string { return "http://" + strings.Repeat("u", n) + "@h/" }, "parse", 0},
+	{"long-password", func(n int) string { return "http://u:" + strings.Repeat("p", n) + "@h/" }, "parse", 0},
+	{"many-at", func(n int) string { return "http://" + strings.Repeat("@", n) + "h/" }, "parse", 0},
+	{"many-colon-in-credentials", func(n int) string { return "http://" + strings.Repeat(":", n) + "@h/" }, "parse", 0},
+	{"long-opaque-host", func(n int) string { return "sc://" + strings.Repeat("h", n) + "/" }, "parse", 0},
+	{"long-opaque-host-percent", func(n int) string { return "sc://" + strings.Repeat("%41", n/3) + "/" }, "parse", 0},
+	{"long-domain-host", func(n int) string { return "http://" + strings.Repeat("a.", n/2) + "com/" }, "parse", 0},
+	{"long-domain-host-escaped", func(n int) string { return "http://" + strings.Repeat("%61", n/3) + ".com/" }, "parse", 0},
+	{"many-path-segments", func(n int) string { return "http://h" + strings.Repeat("/a", n/2) }, "parse", 0},
+	{"many-slashes", func(n int) string { return "http://h" + strings.Repeat("/", n) }, "parse", 0},
+	{"many-backslashes", func(n int) string { return "http://h" + strings.Repeat("\\", n) }, "parse", 0},
+	{"many-dot-segments", func(n int) string { return "http://h" + strings.Repeat("/a/..", n/5) }, "parse", 0},
+	{"two-segments-then-dot-dot", func(n int) string { return "http://h" + strings.Repeat("/a/b/..", n/7) }, "parse", 0},
+	{"three-segments-then-two-dot-dot", func(n int) string { return "http://h" + strings.Repeat("/a/b/c/../..", n/12) }, "parse", 0},
+	{"two-segments-then-escaped-dot-dot", func(n int) string { return "sc://h" + strings.Repeat("/a/b/%2e%2E", n/11) }, "parse", 0},
+	{"two-segments-then-dot-dot-href", func(n int) string { return "http://h" + strings.Repeat("/a/b/..", n/7) }, "href", 0},
+	{"dot-and-empty-segments", func(n int) string { return "http://h" + strings.Repeat("/.//a", n/5) }, "parse", 0},
+	{"file-drive-and-dot-dot", func(n int) string { return "file:///C:" + strings.Repeat("/a/b/..", n/7) }, "parse", 0},
+	{"relative-two-segments-then-dot-dot", func(n int) string { return strings.Repeat("a/b/../", n/7) }, "resolve", 0},
 	{"credentials-escaped", func(n int) string {
 		return "http://" + strings.Repeat("%41", n/6) + ":" + strings.Repeat(" ", n/2) + "@h/"
-	}, "parse"},
-	{"at-and-colon-mixed", func(n int) string { return "http://" + strings.Repeat("a:@", n/3) + "h/" }, "parse"},
-	{"query-many-empty-pairs", func(n int) string { return "http://h/?" + strings.Repeat("&", n) }, "searchparams"},
-	{"query-plus-and-escapes", func(n int) string { return "http://h/?" + strings.Repeat("a+b=%20c&", n/9) }, "searchparams"},
-	{"fragment-non-ascii", func(n int) string { return "http://h/#" + strings.Repeat("é", n/2) }, "parse"},
-	{"opaque-path-non-url-units", func(n int) string { return "sc:" + strings.Repeat("\"", n) }, "parse"},
-	{"many-double-dot-segments", func(n int) string { return "http://h" + strings.Repeat("/..", n/3) }, "parse"},
-	{"many-escaped-dot-segments", func(n int) string { return "http://h" + strings.Repeat("/%2e", n/4) }, "parse"},
-	{"long-path-segment-encoded", func(n int) string { return "http://h/" + strings.Repeat(" a", n/2) }, "parse"},
-	{"long-query", func(n int) string { return "http://h/?" + strings.Repeat("q", n) }, "parse"},
-	{"long-query-encoded", func(n int) string { return "http://h/?" + strings.Repeat("\"", n) }, "parse"},
-	{"many-parameters", func(n int) string { return "http://h/?" + strings.Repeat("a=1&", n/4) }, "parse"},
-	{"long-fragment", func(n int) string { return "http://h/#" + strings.Repeat("f", n) }, "parse"},
-	{"long-fragment-percent", func(n int) string { return "http://h/#" + strings.Repeat("%", n) }, "parse"},
-	{"long-port-digits", func(n int) string { return "http://h:" + strings.Repeat("0", n) + "80/" }, "parse"},
-	{"leading-whitespace", func(n int) string { return strings.Repeat(" ", n) + "http://h/" }, "parse"},
-	{"embedded-tabs", func(n int) string { return "http://h/" + strings.Repeat("a\t", n/2) }, "parse"},
-	{"long-file-path", func(n int) string { return "file:///C:" + strings.Repeat("/a", n/2) }, "parse"},
-	{"relative-many-segments", func(n int) string { return strings.Repeat("../a/", n/5) }, "resolve"},
-	{"ipv6-long", func(n int) string { return "http://[" + strings.Repeat("1:", n/2) + "]/" }, "parse"},
-	{"many-path-segments-href", func(n int) string { return "http://h" + strings.Repeat("/a", n/2) }, "href"},
-	{"many-path-segments-pathname", func(n int) string { return "http://h" + strings.Repeat("/a", n/2) }, "pathname"},
-	{"long-query-href", func(n int) string { return "http://h/?" + strings.Repeat("q", n) }, "href"},
-	{"many-parameters-searchparams", func(n int) string { return "http://h/?" + strings.Repeat("a=1&", n/4) }, "searchparams"},
-	{"long-parameter-searchparams", func(n int) string { return "http://h/?a=" + strings.Repeat("%41", n/3) }, "searchparams"},
-	{"many-parameters-sort", func(n int) string { return "http://h/?" + strings.Repeat("b=1&a=2&", n/8) }, "sort"},
+	}, "parse", 0},
+	{"at-and-colon-mixed", func(n int) string { return "http://" + strings.Repeat("a:@", n/3) + "h/" }, "parse", 0},
+	{"query-many-empty-pairs", func(n int) string { return "http://h/?" + strings.Repeat("&", n) }, "searchparams", 0},
+	{"query-plus-and-escapes", func(n int) string { return "http://h/?" + strings.Repeat("a+b=%20c&", n/9) }, "searchparams", 0},
+	{"fragment-non-ascii", func(n int) string { return "http://h/#" + strings.Repeat("é", n/2) }, "parse", 0},
+	{"opaque-path-non-url-units", func(n int) string { return "sc:" + strings.Repeat("\"", n) }, "parse", 0},
+	{"many-double-dot-segments", func(n int) string { return "http://h" + strings.Repeat("/..", n/3) }, "parse", 0},
+	{"many-escaped-dot-segments", func(n int) string { return "http://h" + strings.Repeat("/%2e", n/4) }, "parse", 0},
+	{"long-path-segment-encoded", func(n int) string { return "http://h/" + strings.Repeat(" a", n/2) }, "parse", 0},
+	{"long-query", func(n int) string { return "http://h/?" + strings.Repeat("q", n) }, "parse", 0},
+	{"long-query-encoded", func(n int) string { return "http://h/?" + strings.Repeat("\"", n) }, "parse", 0},
+	{"many-parameters", func(n int) string { return "http://h/?" + strings.Repeat("a=1&", n/4) }, "parse", 0},
+	{"long-fragment", func(n int) string { return "http://h/#" + strings.Repeat("f", n) }, "parse", 0},
+	{"long-fragment-percent", func(n int) string { return "http://h/#" + strings.Repeat("%", n) }, "parse", 0},
+	{"long-port-digits", func(n int) string { return "http://h:" + strings.Repeat("0", n) + "80/" }, "parse", 0},
+	{"leading-whitespace", func(n int) string { return strings.Repeat(" ", n) + "http://h/" }, "parse", 0},
+	{"embedded-tabs", func(n int) string { return "http://h/" + strings.Repeat("a\t", n/2) }, "parse", 0},
+	{"long-file-path", func(n int) string { return "file:///C:" + strings.Repeat("/a", n/2) }, "parse", 0},
+	{"relative-many-segments", func(n int) string { return strings.Repeat("../a/", n/5) }, "resolve", 0},
+	{"ipv6-long", func(n int) string { return "http://[" + strings.Repeat("1:", n/2) + "]/" }, "parse", 0},
+	{"many-path-segments-href", func(n int) string { return "http://h" + strings.Repeat("/a", n/2) }, "href", 0},
+	{"many-path-segments-pathname", func(n int) string { return "http://h" + strings.Repeat("/a", n/2) }, "pathname", 0},
+	{"long-query-href", func(n int) string { return "http://h/?" + strings.Repeat("q", n) }, "href", 0},
+	{"many-parameters-searchparams", func(n int) string { return "http://h/?" + strings.Repeat("a=1&", n/4) }, "searchparams", 0},
+	{"long-parameter-searchparams", func(n int) string { return "http://h/?a=" + strings.Repeat("%41", n/3) }, "searchparams", 0},
+	{"many-parameters-sort", func(n int) string { return "http://h/?" + strings.Repeat("b=1&a=2&", n/8) }, "sort", 0},
 	{"getters-long-url", func(n int) string {
 		return "http://" + strings.Repeat("u", 10) + "@h/" + strings.Repeat("a/", n/4) + "?" + strings.Repeat("q", n/4) + "#" + strings.Repeat("f", n/4)
-	}, "getters"},
-	{"canon-gsb-many-segments", func(n int) string { return "http://h" + strings.Repeat("/%2561", n/6) }, "canon-gsb"},
-	{"canon-gsb-long-query", func(n int) string { return "http://h/?" + strings.Repeat("a=%2562&", n/8) }, "canon-gsb"},
-	{"invalid-bytes-path-accept-invalid", func(n int) string { return "http://h/" + strings.Repeat("\xf0\x9f", n/2) }, "parse-accept-invalid"},
-	{"invalid-bytes-host-accept-invalid", func(n int) string { return "http://" + strings.Repeat("\xff", n) + "/" }, "parse-accept-invalid"},
-	{"invalid-bytes-query-accept-invalid", func(n int) string { return "http://h/?" + strings.Repeat("a\xfe", n/2) }, "parse-accept-invalid"},
-	{"invalid-bytes-gsb", func(n int) string { return strings.Repeat("\xf0\x9f", n/2) }, "canon-gsb"},
-	{"invalid-bytes-path-gsb", func(n int) string { return "http://h/" + strings.Repeat("\xf0\x9f/", n/3) }, "canon-gsb"},
-	{"invalid-bytes-semantic", func(n int) string { return "http://h/#" + strings.Repeat("\xc3", n) }, "canon-semantic"},
-	{"invalid-bytes-default-parser", func(n int) string { return "http://h/" + strings.Repeat("\xf0\x9f", n/2) }, "parse"},
-	{"canon-semantic-many-segments", func(n int) string { return "http://h" + strings.Repeat("/a", n/2) + "?b=1&a=2" }, "canon-semantic"},
+	}, "getters", 0},
+	{"canon-gsb-many-segments", func(n int) string { return "http://h" + strings.Repeat("/%2561", n/6) }, "canon-gsb", 0},
+	{"canon-gsb-long-query", func(n int) string { return "http://h/?" + strings.Repeat("a=%2562&", n/8) }, "canon-gsb", 0},
+	{"invalid-bytes-path-accept-invalid", func(n int) string { return "http://h/" + strings.Repeat("\xf0\x9f", n/2) }, "parse-accept-invalid", 0},
+	{"invalid-bytes-host-accept-invalid", func(n int) string { return "http://" + strings.Repeat("\xff", n) + "/" }, "parse-accept-invalid", 0},
+	{"invalid-bytes-query-accept-invalid", func(n int) string { return "http://h/?" + strings.Repeat("a\xfe", n/2) }, "parse-accept-invalid", 0},
+	{"invalid-bytes-gsb", func(n int) string { return strings.Repeat("\xf0\x9f", n/2) }, "canon-gsb", 0},
+	{"invalid-bytes-path-gsb", func(n int) string { return "http://h/" + strings.Repeat("\xf0\x9f/", n/3) }, "canon-gsb", 0},
+	{"invalid-bytes-semantic", func(n int) string { return "http://h/#" + strings.Repeat("\xc3", n) }, "canon-semantic", 0},
+	{"invalid-bytes-default-parser", func(n int) string { return "http://h/" + strings.Repeat("\xf0\x9f", n/2) }, "parse", 0},
+	// the nesting DEPTH of an escape (each decoding round strips one level and costs a pass over the text): known finding F26
+	{"nested-escape-depth-path-gsb", func(n int) string { return "http://h/%" + strings.Repeat("25", n/2) + "41" }, "canon-gsb", 2},
+	{"nested-escape-depth-query-semantic", func(n int) string { return "http://h/?a=%" + strings.Repeat("25", n/2) + "41" }, "canon-semantic", 2},
+	// a long scheme next to a long path under a special-scheme table of more than eight entries (the per-code-point
+	// special-scheme test hashes the whole scheme): known finding F27
+	{"long-scheme-long-path-big-special-map", func(n int) string { return strings.Repeat("a", n) + ":/" + strings.Repeat("b", n) }, "parse-big-special-map", 32},
+	{"long-scheme-long-path", func(n int) string { return strings.Repeat("a", n) + ":/" + strings.Repeat("b", n) }, "parse", 0},
+	{"canon-semantic-many-segments", func(n int) string { return "http://h" + strings.Repeat("/a", n/2) + "?b=1&a=2" }, "canon-semantic", 0},
 }
 
+var bigSpecialMapParser = url.NewParser(url.WithSpecialSchemes(map[string]string{"ftp": "21", "file": "", "http": "80", "https": "443", "ws": "80", "wss": "443", "s1": "1", "s2": "2", "s3": "3", "s4": "4"}))
 var acceptInvalidParser = url.NewParser(url.WithAcceptInvalidCodepoints(), url.WithLaxHostParsing())
 
 func runOp(f family, in string, u *url.Url, base *url.Url) {
@@ -97,6 +106,8 @@ func runOp(f family, in string, u *url.Url, base *url.Url) {
 		_, _ = url.Parse(in)
 	case "parse-accept-invalid":
 		_, _ = acceptInvalidParser.Parse(in)
+	case "parse-big-special-map":
+		_, _ = bigSpecialMapParser.Parse(in)
 	case "resolve":
 		_, _ = base.Parse(in)
 	case "href":
@@ -124,7 +135,7 @@ func runOp(f family, in string, u *url.Url, base *url.Url) {
 func prepOp(f family, n int) (in string, u *url.Url, base *url.Url, ok bool) {
 	in = f.Gen(n)
 	base, _ = url.Parse("http://h/a/b/c")
-	if f.Op != "parse" && f.Op != "parse-accept-invalid" && f.Op != "resolve" && !strings.HasPrefix(f.Op, "canon") {
+	if !strings.HasPrefix(f.Op, "parse") && f.Op != "resolve" && !strings.HasPrefix(f.Op, "canon") {
 		u, _ = url.Parse(in)
 		if u == nil {
 			return in, nil, base, false
@@ -196,7 +207,11 @@ func costCommand(args []string) bool {
 			r.MallocRat = float64(m4) / float64(m1)
 		}
 		// the work done, at sizes where a quadratic family takes long enough to be told from noise (16n and 64n)
-		t1, t4 := timeOp(f, 16*n), timeOp(f, 64*n)
+		ts := f.TScale
+		if ts == 0 {
+			ts = 16
+		}
+		t1, t4 := timeOp(f, ts*n), timeOp(f, 4*ts*n)
 		r.TimeN, r.Time4N = t1.Nanoseconds(), t4.Nanoseconds()
 		if t1 > 0 {
 			r.TimeRatio = float64(t4) / float64(t1)
